@@ -34,6 +34,23 @@ Definition typed_callback (k : kind) (c : tcb) : list tcb :=
   | TEvent ty o => match adapt k o with Some x => [TEvent ty x] | None => [] end
   end.
 
+(* ToUnitary(log, delegate): OnInitialize reaches the delegate only when the
+   (typed) initial list holds exactly one object; every other callback is
+   passed on as it is *)
+Definition unitary_callback (k : kind) (c : tcb) : list tcb :=
+  match c with
+  | TInit objs => match typed_list k objs with
+                  | [o] => [TInit [o]]
+                  | _ => []
+                  end
+  | TEvent ty o => typed_callback k (TEvent ty o)
+  end.
+
+(* a whole callback log of the untyped monitor, seen through the typed
+   monitor / through a unitary handler *)
+Definition typed_log (k : kind) (l : list tcb) : list tcb := flat_map (typed_callback k) l.
+Definition unitary_log (k : kind) (l : list tcb) : list tcb := flat_map (unitary_callback k) l.
+
 (* ------------------------------------------------------------------ *)
 (* source level: the generated files are the template with its
    placeholders replaced.  Tokens are interned by the translator
